@@ -15,7 +15,8 @@ LEVEL = 'proof'
 RULE = ('one op = one (function, d, sample) evaluated by the model and by numqi.gellmann (numpy or torch, batch shape (), (k,), (k,l), '
         'float64/complex128 and float32/complex64 inputs). d = 2..8. Inputs: Gaussian-integer matrices / integer coefficient vectors with '
         'entries in [-9,9], unit matrices E_rc, exact-dyadic density matrices. An op is non-trivial when its input is not zero; '
-        'distinct = distinct op lines.')
+        'distinct = distinct op lines. Options: all_gellmann_matrix with_I in {True,False} for d = 2..8 and tensor_n = 2 (with_I both) for d = 2,3 '
+        '(4 in thorough), the latter compared with tolerance 0 for d <= 3 (exact products of binary64 entries, each rounded once on both sides).')
 TRUSTED = ['Lean 4.33 kernel', 'axioms: propext, Classical.choice, Quot.sound', 'Lean compiler for the driver executable',
            'Float.sqrt of the Lean runtime (binary64 sqrt) for the scalars of the executable instance',
            'harness/c16.py canonicalisation (exact rational parsing, tolerance comparison)',
@@ -188,7 +189,7 @@ class Tie:
                     tol = float(np.min(lim)) if m.size else tol
                     if ok and tol > 0: worst = max(worst, err / tol)
             if ok:
-                nontriv = not all(c in '0,;/1 ' for c in ''.join(op.split(' ')[3:])) or op.split(' ')[1] in ('gm', 'all')
+                nontriv = not all(c in '0,;/1 ' for c in ''.join(op.split(' ')[3:])) or op.split(' ')[1] in ('gm', 'all', 'allt')
                 ctx.agree(op, op if nontriv else None)
             else:
                 impl_s = exp if isinstance(exp, str) else ';'.join(f'{z.real!r},{z.imag!r}' for z in np.asarray(exp).reshape(-1).astype(complex)[:64])
@@ -212,6 +213,18 @@ def correspondence(ctx):
                 if ctx.quick() and d > 5 and rng.random() < 0.6:
                     continue
                 tie.add(f'C16 gm {d} {i} {j}', guarded(lambda: G.gellmann_matrix(i, j, d).reshape(-1)), TOL64 * d, 'gm')
+    # -- options: with_I=False (both tensor_n) and the tensor_n=2 flattening (itertools.product order, np.kron index) — round 6.
+    #    d <= 3: every entry of the basis is a binary64 number in the model too (0, +-1, +-i, c_k, -k*c_k with k in {1,2} exact); the model multiplies
+    #    them exactly, np.kron rounds each product once (one factor of every complex product is zero) and Fraction -> float is correctly rounded, so
+    #    the comparison is exact (tolerance 0).  d >= 4: the model keeps -k*c_k unrounded (k = 3: not a binary64 number) while numpy rounds it before
+    #    the Kronecker product, so products differ in the last bit: tolerance TOL64*d as for `all d`.
+    for d in dims:
+        tie.add(f'C16 all {d} 0', guarded(lambda: G.all_gellmann_matrix(d, with_I=False).reshape(-1)), TOL64 * d, 'all-noI')
+        tie.add(f'C16 all {d} 1', guarded(lambda: G.all_gellmann_matrix(d, 1, True).reshape(-1)), TOL64 * d, 'all')
+    for d in ([2, 3] if ctx.quick() else [2, 3, 4]):
+        for w in (1, 0):
+            tie.add(f'C16 allt {d} {w}', guarded(lambda: G.all_gellmann_matrix(d, tensor_n=2, with_I=bool(w)).reshape(-1)), 0 if d <= 3 else TOL64 * d, 'tensor2' if w else 'tensor2-noI')
+    tie.add('C16 allt 1 1', guarded(lambda: G.all_gellmann_matrix(1, tensor_n=2).reshape(-1)), 0, 'all-assert')
     tie.add('C16 all 1', guarded(lambda: G.all_gellmann_matrix(1).reshape(-1)), 0, 'all-assert')
     tie.add('C16 gm 3 3 0', guarded(lambda: G.gellmann_matrix(3, 0, 3).reshape(-1)), 0, 'gm-assert')
     tie.add('C16 gm 3 0 3', guarded(lambda: G.gellmann_matrix(0, 3, 3).reshape(-1)), 0, 'gm-assert')
